@@ -60,6 +60,27 @@ Definition node_enc (n : node) : list N :=
 Definition dsts (os : list out) : list N :=
   fold_left (fun acc o => match o with Send d _ => sadd d acc | _ => acc end) os [].
 
+(* transport add/drop notifications: within a run of the same kind the order is the iteration order of a Python
+   set (unobservable), so each run is sorted by node id *)
+Fixpoint ins_pair (p : N * N) (l : list (N * N)) : list (N * N) :=
+  match l with
+  | [] => [p]
+  | q :: r => if snd p <=? snd q then p :: l else q :: ins_pair p r
+  end.
+
+Fixpoint canon_t (run : list (N * N)) (l : list (N * N)) : list (N * N) :=
+  match l with
+  | [] => run
+  | p :: r =>
+    match run with
+    | [] => canon_t [p] r
+    | q :: _ => if fst p =? fst q then canon_t (ins_pair p run) r else run ++ canon_t [p] r
+    end
+  end.
+
+Definition tlog_of (os : list out) : list (N * N) :=
+  flat_map (fun o => match o with TAdd x => [(1, x)] | TDrop x => [(2, x)] | _ => [] end) os.
+
 Definition outs_enc (s : S) : list N :=
   let os := outs s in
   L (fun d => d :: L (fun o => match o with
@@ -71,8 +92,7 @@ Definition outs_enc (s : S) : list N :=
        (filter (fun o => match o with Fired _ _ _ => true | _ => false end) os)
   ++ L (fun o => match o with Role a b => [a; b] | _ => [] end)
        (filter (fun o => match o with Role _ _ => true | _ => false end) os)
-  ++ L (fun o => match o with TAdd x => [1; x] | TDrop x => [2; x] | _ => [] end)
-       (filter (fun o => match o with TAdd _ | TDrop _ => true | _ => false end) os)
+  ++ L (fun p => [fst p; snd p]) (canon_t [] (tlog_of os))
   ++ [exc s; njmp s].
 
 (* digest of an observation: a multiplicative hash over machine integers (wraps modulo 2^63), computed
